@@ -142,4 +142,7 @@ Return(how, same) ==
 WritesUnderOutput == \A w \in written : w[1] = "out"
 InputsUntouched == inputsSame /\ \A w \in written : w[1] \notin {"in1", "in2"}
 FailureVisible == (pc = "returned" /\ faulted) => outcome = "exc"
+\* a run that was asked something it cannot honour -- an unknown field, an input it cannot read (a binary file cut short inside
+\* data it needs, a missing binary file or level header, a global header cut short) -- does not return normally
+RequestRefused(doomed) == (pc = "returned" /\ doomed) => outcome = "exc"
 =============================================================================
